@@ -11,9 +11,10 @@ Tokens: bytes `x<hex>`; digest `x<hex of the hash string>/<size>`; raw digest `-
 * `dir <dig> <nd> <nf> <ns> (name raw)* (name raw exec)* (name target)*`
 * `blob <dig> <bytes>`
 * `newroot`                             fresh empty root, same CAS
-* `<op> <nF> <dig>*nF <args>` with `merge <dig>`, `lookup c..`, `readdir c..`,
+* `<op> <nF> <dig>*nF <args>` with `merge <dig>`, `mmerge <dig>` (with access monitor),
+  `rename|link <n1> c..` (the first `n1` components are the old/source path), `lookup c..`, `readdir c..`,
   `openw|opentrunc|setsize|alloc|write c..`, `read <off> <len> c..`,
-  `remove|create|mkdir c..`, `fetch <dig>` (one `FetchContents` call, no tree; how many leaves existed when a
+  `remove|create|mkdir c..`, `digests c..` (`ApplyGetContainingDigests` on the node), `fetch <dig>` (one `FetchContents` call, no tree; how many leaves existed when a
   defect was found is not compared, only that all of them were unlinked)
 * `cinit <maxCount> <maxSize>`, `cget <0 dir|1 root|2 child> <t> <c> <base|-> <size>`
 -/
@@ -174,7 +175,18 @@ def splitLast : List Name → Option (Path × Name)
 def parseOp (name : String) (args : List String) : Option Op :=
   match name with
   | "merge" => match args with
-    | [d] => (parseDig d).map .merge
+    | [d] => (parseDig d).map (.merge · false)
+    | _ => none
+  | "mmerge" => match args with
+    | [d] => (parseDig d).map (.merge · true)
+    | _ => none
+  | "rename" | "link" => match args with
+    | n1 :: comps => do
+      let n1 ← n1.toNat?
+      let cs ← comps.mapM parseBytes
+      let (p1, x1) ← splitLast (cs.take n1)
+      let (p2, x2) ← splitLast (cs.drop n1)
+      if name = "rename" then some (.rename p1 x1 p2 x2) else some (.link p1 x1 p2 x2)
     | _ => none
   | "readdir" => (args.mapM parseBytes).map .readdir
   | "read" => match args with
@@ -199,6 +211,17 @@ def parseOp (name : String) (args : List String) : Option Op :=
     | "create" => some (.create p x)
     | "mkdir" => some (.mkdir p x)
     | _ => none
+
+def digLt (a b : Dig) : Bool := bytesLt a.hash b.hash || (a.hash == b.hash && a.size < b.size)
+
+def insertDig (d : Dig) : List Dig → List Dig
+  | [] => [d]
+  | e :: rest => if d == e then e :: rest else if digLt d e then d :: e :: rest else e :: insertDig d rest
+
+def showContaining : Containing → String
+  | .unhandled => "unhandled"
+  | .err e => "err:" ++ showErr e
+  | .digests l => "{" ++ ",".intercalate ((l.foldr insertDig []).map fun d => s!"{showHash d.hash}:{d.size}") ++ "}"
 
 def showFetch (r : FetchOut) : String :=
   match r.result with
@@ -253,11 +276,24 @@ def step (s : DS) (ws : List String) : DS × String :=
       match takeDigs nF rest with
       | none => (s, "bad-op")
       | some (F, args) =>
-        if name = "fetch" then
+        if name = "digests" then
+          -- walk like `lookup` (the directories above are initialised), then ask the node as it is
+          match (args.mapM parseBytes).bind splitLast with
+          | none => (s, "bad-op")
+          | some (p, x) =>
+            let r := BbRe.InputRoot.step s.st F (.lookup p x)
+            let s' := { s with st := r.1 }
+            match r.2 with
+            | .kind _ =>
+              match rawAt r.1.root (p ++ [x]) with
+              | none => (s', "bad-state")
+              | some n => (s', showContaining (containing s.st.cas F n))
+            | o => (s', showOut o)
+        else if name = "fetch" || name = "mfetch" then
           match args with
           | [d] =>
             match parseDig d with
-            | some d => (s, showFetch (fetch s.st.cas F d))
+            | some d => (s, showFetch (fetch s.st.cas F d (if name = "mfetch" then some [] else none)))
             | none => (s, "bad-op")
           | _ => (s, "bad-op")
         else
